@@ -157,7 +157,14 @@ fn inject(d: &mut Driver, ev: &Ev, problems: &mut Vec<Problem>, obs_log: &mut Ve
 pub static KEEP_GOING_UNLESS: std::sync::Mutex<Option<String>> = std::sync::Mutex::new(None);
 
 /// execute one path from a fresh task; stops at the first divergence from the model
+/// every caller is protected against a spin inside one poll: an unguarded caller would hang for
+/// good (seed s174 did that to C05's connection-boundary phase)
 pub fn run_path(cfg: &SmCfg, events: &[Ev]) -> PathResult {
+    let describe = || ("client-sm".to_string(), format!("path {events:?}"), json!({"kind": "client-sm", "property": crate::report::current_property(), "cfg": cfg, "events": events, "aspects": "WCTLDP"}));
+    crate::sim::watchdog::guard(&describe, || run_path_unguarded(cfg, events))
+}
+
+fn run_path_unguarded(cfg: &SmCfg, events: &[Ev]) -> PathResult {
     let tcfg = ClientTaskCfg {
         queue: cfg.cap,
         max_timeouts: cfg.max_timeouts,
@@ -1590,6 +1597,11 @@ pub struct SessCfg {
 }
 
 pub fn run_session_path(cfg: &SessCfg, events: &[Ev]) -> PathResult {
+    let describe = || ("client-session".to_string(), format!("path {events:?}"), json!({"kind": "client-session", "property": crate::report::current_property(), "cfg": cfg, "events": events, "aspects": "WCTLDP"}));
+    crate::sim::watchdog::guard(&describe, || run_session_path_unguarded(cfg, events))
+}
+
+fn run_session_path_unguarded(cfg: &SessCfg, events: &[Ev]) -> PathResult {
     let mut h = ClientSessionHarness::new(cfg.rtu, decode_level(cfg.decode), cfg.max_timeouts, cfg.cap);
     let mut model = ClientModel::new_session(cfg.cap, cfg.max_timeouts, cfg.rtu);
     let mut problems: Vec<Problem> = vec![];
